@@ -331,6 +331,16 @@ class SymbolGraph(metaclass=SingletonMeta):
     def wrapped_instances(self) -> List[WrappedInstance]:
         return self._instance_graph.nodes()
 
+    @staticmethod
+    def _is_between_live_instances(relation: PredicateClassRelation) -> bool:
+        """
+        :return: False for a relation that a garbage collected instance left behind and that was not swept yet.
+        """
+        return (
+            relation.source.instance is not None
+            and relation.target.instance is not None
+        )
+
     def get_incoming_relations_with_type(
         self,
         wrapped_instance: WrappedInstance,
@@ -372,7 +382,9 @@ class SymbolGraph(metaclass=SingletonMeta):
         if not wrapped_instance:
             return
         yield from (
-            edge for _, _, edge in self._instance_graph.in_edges(wrapped_instance.index)
+            edge
+            for _, _, edge in self._instance_graph.in_edges(wrapped_instance.index)
+            if self._is_between_live_instances(edge)
         )
 
     def get_outgoing_relations_with_type(
@@ -418,6 +430,7 @@ class SymbolGraph(metaclass=SingletonMeta):
         yield from (
             edge
             for _, _, edge in self._instance_graph.out_edges(wrapped_instance.index)
+            if self._is_between_live_instances(edge)
         )
 
     def to_dot(
